@@ -63,11 +63,15 @@ def gen(rng, tier, i):
                 n += 1; total += 1
                 L.append('t %d enq p%d_%d' % (t, t, n))
                 if rng.random() < 0.3: L.append('t %d sleep %d' % (t, rng.choice((1, 100))))
-        for _ in range(total + 3):
+        ndeq = rng.randint(0, total + 2)
+        for _ in range(ndeq):
             L.append('t 0 deq')
             if rng.random() < 0.4: L.append('t 0 sleep %d' % rng.choice((1, 30, 300)))
-        L.append('t 0 sleep 5000')
-        for _ in range(total + 2): L.append('t 0 deq')
+        if opts['queue_flags'] & 2 and not opts['queue_flags'] & 1:
+            L.append('t 0 drain %d' % total)      # writers block until there is room: the consumer must take everything
+        else:
+            L.append('t 0 sleep 5000')
+            for _ in range(total + 2): L.append('t 0 deq')
         L.append('t 0 qstats')
     elif cls == 'worker':
         L.append('t 0 wcreate')
@@ -117,6 +121,10 @@ def check(plan, res):
             if e.rest.startswith('HANG') or e.rest.startswith('DEADLOCK') or e.rest.startswith('SELF-DEADLOCK'): why = e.rest
         if kind == 'exit' and code in (75, 76):
             v.append(Violation(PROP, 'termination', '%s scenario did not terminate: %s' % (cls, why or 'budget exhausted'), PROP + '/termination/' + cls + '/' + (why.split(' ')[0].lower() or 'hang')))
+        elif kind == 'exit' and code == 66:
+            m = re.search(r'SUMMARY: ThreadSanitizer: data race (\S+?)(?::\d+)* in (\S+)', res.stderr)
+            where = (m.group(1).replace('/repo/', ''), m.group(2)) if m else ('?', '?')
+            v.append(Violation(PROP, 'race', 'ThreadSanitizer: data race at %s in %s (%s scenario)' % (where[0], where[1], cls), PROP + '/race/' + where[1]))
         elif kind == 'exit' and code == 77:
             v.append(Violation(PROP, 'sanitizer', 'sanitizer report in %s scenario: %s' % (cls, res.stderr[:200]), PROP + '/sanitizer/' + cls))
         else:
@@ -163,7 +171,7 @@ def check(plan, res):
         stats = None
         for y, t, th, r in E:
             w = r.split(' ')
-            if w[0] == 'enq': (acc if w[2] == 'ret=1' else rej).append(w[1])
+            if w[0] == 'enq' and stats is None: (acc if w[2] == 'ret=1' else rej).append(w[1])
             elif w[0] == 'deq' and w[1] == 'ret=1': deq.append(w[2])
             elif w[0] == 'qstats': stats = dict(x.split('=') for x in w[1:])
         for d in deq:
@@ -188,8 +196,8 @@ def check(plan, res):
             for y, t, th, r in reversed(E):
                 w = r.split(' ')
                 if w[0] == 'deq': tail_deq += 1
-                elif w[0] not in ('qstats', 'prog_done', 'all_joined', 'STATS', 'END', 'thread_exit', 'enq'): break
-            if remaining and tail_deq > remaining + 1:
+                elif w[0] not in ('qstats', 'prog_done', 'all_joined', 'STATS', 'END', 'thread_exit', 'enq', 'drain'): break
+            if remaining and tail_deq > remaining + 1 and not (flags & 2):
                 v.append(Violation(PROP, 'stuck', '%d message(s) left in the queue after the consumer drained it' % remaining, PROP + '/queue/stuck'))
     elif cls == 'worker':
         joined_ok_at = None; exit_seen = False; iters = []
@@ -241,3 +249,31 @@ def summarize(plan, res):
     nontriv = int(st.get('context_switches', 0)) > 2
     return {'nontrivial': nontriv, 'abstract': hashlib.sha256((o.get('c19_class', '') + ' '.join(order)).encode()).hexdigest()[:16],
             'stats': {k: int(v) for k, v in st.items()}, 'probes': {'class_' + o.get('c19_class', '?'): 1, 'eventfd_write_onto_nonzero': int(st.get('eventfd_write_onto_nonzero', 0))}}
+
+
+def main(tier, seed, args):
+    """ASan batch (all oracles) followed by a ThreadSanitizer batch of the same scenario generator (race clause)"""
+    import os, json
+    from .. import core
+    n = args.runs or (20000 if tier == 'quick' else 1000000)
+    if args.replay:
+        d = json.load(open(args.replay))
+        variant = 'tsan' if '/race/' in d.get('violation', {}).get('class', '') else 'asan'
+        core.build(variant, tools=BUILD_TOOLS)
+        import sys
+        mod = sys.modules[__name__]
+        return core.run_check(mod, PROP, tier, seed, n, variant=variant, replay=args.replay)
+    import sys
+    mod = sys.modules[__name__]
+    rc1 = core.run_check(mod, PROP, tier, seed, n)
+    ev1 = json.load(open(os.path.join(core.ROOT, 'evidence', PROP + '.json')))
+    nt = max(300, n // 10) if tier == 'quick' else n // 10
+    rc2 = core.run_check(mod, PROP, tier, seed + 7919, nt, variant='tsan')
+    ev2 = json.load(open(os.path.join(core.ROOT, 'evidence', PROP + '.json')))
+    ev1['coverage']['tsan_batch'] = {'evaluations': ev2['coverage']['evaluations'], 'distinct_nontrivial': ev2['coverage']['distinct_nontrivial'],
+                                     'violation_classes': ev2['coverage']['violation_classes'], 'wall_s': ev2['wall_s'],
+                                     'note': 'same scenario generator, ThreadSanitizer build of lib/async + lib/port; the simulator is not instrumented and annotates the sync objects it models'}
+    ev1['violations'] = ev1.get('violations', 0) + ev2.get('violations', 0)
+    ev1['wall_s'] = round(ev1['wall_s'] + ev2['wall_s'], 2)
+    json.dump(ev1, open(os.path.join(core.ROOT, 'evidence', PROP + '.json'), 'w'), indent=1)
+    return max(rc1, rc2)
